@@ -61,6 +61,24 @@ impl AOracle for Oracle {
         let triple: Triple = (g.measurement.clone(), g.epoch.clone(), g.threshold);
         // what this client derived, observed through the public API only
         let mg = MessageGenerator::new(crate::worlds::a::make_measurement(&g.measurement), g.threshold, &g.epoch);
+        if ctx.ch.chance(1, 8) {
+            // API misuse right before the valid request: an output buffer of the wrong length. The documented
+            // reaction is a panic; the caller survives it (catch_unwind) and asks again properly. Whatever the
+            // refused call did must not colour the valid one for the same triple.
+            let len = *ctx.ch.pick(&[0usize, 16, 31, 33, 64]);
+            let mut wrong = vec![0u8; len];
+            if ctx.ch.chance(1, 2) {
+                // ... with a valid request for a neighbouring triple in between (the previous caller on this thread)
+                let decoy = MessageGenerator::new(crate::worlds::a::make_measurement(&g.measurement), g.threshold ^ 1, &g.epoch);
+                let mut r = [0u8; 32];
+                decoy.sample_local_randomness(&mut r);
+            }
+            let refused = crate::runner::guarded(|| mg.sample_local_randomness(&mut wrong)).is_err();
+            ctx.stats.fault("wrong_length_randomness_buffer");
+            if refused {
+                ctx.stats.probe("wrong_length_buffer_refused_then_valid_request");
+            }
+        }
         let mut rnd = [0u8; 32];
         mg.sample_local_randomness(&mut rnd);
         let mat = ctx.os.with_node(c.node as u64, || mg.share_with_local_randomness()).map_err(|e| Violation::new("c04.generate", "generate", e.to_string()))?;
